@@ -4,7 +4,7 @@ of Consts.v the property depends on, the correspondence runner, and the trusted 
 TRUSTED_COMMON = [
     "Coq 8.16.1 kernel incl. its bytecode VM (vm_compute); no native_compute; no axioms declared (Print Assumptions: Closed under the global context)",
     "the hand-written Gallina model of the Rust functions (tied to /repo by the correspondence check on every run, not verified against rustc)",
-    "tools/extract_consts.py (regex translator of constants and inline literals into coq/Consts.v), tools/extract_layouts.py (digest field sequences into coq/Layouts.v) and tools/extract_purity.py (hidden-state / unsafe / ambient-input scan of the files the property reaches into coq/Purity.v), tools/extract_steps.py + tools/rustexpr.py (Rust-subset to Gallina translation of 174 function bodies into coq/Steps.v; the translator's rendering of Rust is itself tested on every tree against rustc by tools/translator_selftest.py: 58 snippet functions and methods, 1710 calls incl. 251 panics, and three alias-writing functions it must refuse) and tools/extract_delegations.py (which half each method of a combined crypto object delegates to, into coq/Delegations.v), all re-run on every check",
+    "tools/extract_consts.py (regex translator of constants and inline literals into coq/Consts.v), tools/extract_layouts.py (digest field sequences into coq/Layouts.v) and tools/extract_purity.py (hidden-state / unsafe / ambient-input scan of the files the property reaches into coq/Purity.v), tools/extract_steps.py + tools/rustexpr.py (Rust-subset to Gallina translation of 174 function bodies into coq/Steps.v; the translator's rendering of Rust is itself tested on every tree against rustc by tools/translator_selftest.py: 58 snippet functions and methods, 1710 calls incl. 251 panics, and three alias-writing functions it must refuse) and tools/extract_delegations.py (which half each method of a combined crypto object delegates to, and the bodies of the seven bridge one-liners as_bigint / to_bigint / bigint / From for SrpError, into coq/Delegations.v), all re-run on every check",
     "the Rust harness /verif/harness (generators, catch_unwind, case printer) and the guarded hooks src/verif_hooks.rs",
     "Rust integer/slice semantics as rendered in the model (wrapping ops, debug overflow checks, bounds checks)",
 ]
